@@ -154,6 +154,17 @@ class ComponentBump:
         """
         if self.to_rbuild is None:
             return {}
+        # rbuilds which were included into previous builds already: the previous
+        # rbuilds and everything they contain (the new rbuild is not necessary
+        # a descendant of the previous ones, it may have been built on a
+        # parallel sub-branch of the component)
+        included_before = dict(self.from_rbuilds)
+        to_check = list(self.from_rbuilds.values())
+        while to_check:
+            for rbuild in to_check.pop().parent_rbuilds.values():
+                if rbuild.iid not in included_before:
+                    included_before[rbuild.iid] = rbuild
+                    to_check.append(rbuild)
         # DFS rbuilds in the component
         dfs_stack = [[self.to_rbuild]]
         dfs_sp = [0]
@@ -177,7 +188,7 @@ class ComponentBump:
 
             cur_rbuild = dfs_stack[-1][cur_sp]
 
-            if cur_rbuild.iid in self.from_rbuilds:
+            if cur_rbuild.iid in included_before:
                 # do not go deeper
                 dfs_sp[-1] = cur_sp - 1
                 continue
